@@ -1,7 +1,7 @@
 #!/bin/bash
 # verify_mutant.sh <prop> <k>: confirms a sub-agent's mutant in its scratch worktree /tmp/wt/<prop>:
 # demo passes on the clean tree, patch applies, demo fails with it, existing suite still passes.
-P=$1; K=$2; WT=/tmp/wt/$P; M=/tmp/wtout/$P/m$K; LOG=/tmp/wtout/$P/verify_m$K.log
+P=$1; K=$2; PRE=${3:-}; WT=/tmp/wt/$P; M=/tmp/wtout/$PRE$P/m$K; LOG=/tmp/wtout/$PRE$P/verify_m$K.log
 exec > $LOG 2>&1
 cd $WT && git checkout -q -- . && git clean -fdq
 echo "== demo on clean tree"; bash $M/demo/run.sh $WT; echo "clean_demo_exit=$?"
